@@ -289,6 +289,12 @@ def sym_eval(expr, x, params, xsym=None):
             return mp.tan(ev(e.args[0]))
         if f is sympy.re:
             return ev(e.args[0])
+        if f is sympy.atan2:
+            # appears as arg(.) of a real quantity after sympy's simplification (atan2(0, |a|) = 0)
+            yy, xx = ev(e.args[0]), ev(e.args[1])
+            if yy == 0 and xx == 0:
+                raise Undefined()
+            return mp.atan2(yy, xx)
         raise ValueError("sym_eval: unsupported node %s in %s" % (f, e))
     try:
         return _fin(ev(expr))
